@@ -1,5 +1,8 @@
-import Probe.RelOps
+import Core.RelOps
+set_option linter.unusedSectionVars false
 namespace Sodg
+
+variable {L D : Type} [DecidableEq L] [Inhabited D]
 
 def dedup : List Nat → List Nat
   | [] => []
@@ -22,12 +25,12 @@ theorem nodup_dedup (l : List Nat) : (dedup l).Nodup := by
     · rename_i hn; exact List.nodup_cons.2 ⟨by rwa [mem_dedup], ih⟩
 
 /-- live reference groups -/
-def R.groups (r : R) : List Nat := dedup (r.ids.filterMap r.grp)
+def R.groups (r : R L D) : List Nat := dedup (r.ids.filterMap r.grp)
 
-theorem mem_groups (r : R) (k : Nat) : k ∈ r.groups ↔ ∃ v ∈ r.ids, r.grp v = some k := by
+theorem mem_groups (r : R L D) (k : Nat) : k ∈ r.groups ↔ ∃ v ∈ r.ids, r.grp v = some k := by
   simp [R.groups, mem_dedup, List.mem_filterMap]
 
-theorem members_length (g : G) (r : R) (h : Rel g r) (v : Nat) (hv : v ∈ r.ids) (k : Nat)
+theorem members_length (g : G L D) (r : R L D) (h : Rel g r) (v : Nat) (hv : v ∈ r.ids) (k : Nat)
     (hk : r.grp v = some k) : (r.members k).length = (mem g (tag g v)).length := by
   have hb2 : 2 ≤ tag g v := ((h.same v hv v hv).1 ⟨by simp [hk], rfl⟩).1
   have hlt := h.inv.taglt v ((h.alive v).1 hv).1
@@ -39,7 +42,7 @@ theorem members_length (g : G) (r : R) (h : Rel g r) (v : Nat) (hv : v ∈ r.ids
   · exact n2.length_le_of_subset (fun w hw => (e w).2 hw)
 
 /-- every occupied slot in `S` carries its own live reference group -/
-theorem slots_inject (g : G) (r : R) (h : Rel g r) (S : List Nat) (hS : S.Nodup)
+theorem slots_inject (g : G L D) (r : R L D) (h : Rel g r) (S : List Nat) (hS : S.Nodup)
     (hr : ∀ b ∈ S, 2 ≤ b ∧ b < 16 ∧ mem g b ≠ []) :
     ∃ L : List Nat, L.Nodup ∧ L.length = S.length ∧
       ∀ k ∈ L, ∃ b ∈ S, ∃ v ∈ r.ids, tag g v = b ∧ r.grp v = some k := by
@@ -69,7 +72,7 @@ theorem slots_inject (g : G) (r : R) (h : Rel g r) (S : List Nat) (hS : S.Nodup)
       · obtain ⟨c, hc, rest⟩ := hLk k' hk'
         exact ⟨c, List.mem_cons_of_mem _ hc, rest⟩
 
-theorem free_slot (g : G) (r : R) (h : Rel g r) (hlim : r.groups.length < 14) :
+theorem free_slot (g : G L D) (r : R L D) (h : Rel g r) (hlim : r.groups.length < 14) :
     ∃ b, firstEmpty g = some b ∧ 2 ≤ b ∧ b < 16 ∧ mem g b = [] := by
   have hex : ∃ b, 2 ≤ b ∧ b < 16 ∧ mem g b = [] := by
     apply Classical.byContradiction; intro hno
